@@ -128,7 +128,8 @@ Record modl := mkMod {
 
 (** A place a type statement is read from: the module it was written in and the typedef tables of
     the enclosing statements (getOriginalParent chain), innermost first, module level excluded. *)
-Definition pos := (nat * list (list typedef))%type.
+Definition frame := (option (list text) * list typedef)%type.   (* absolute path of the owning data node (None: a grouping), its typedefs *)
+Definition pos := (nat * list frame)%type.
 
 Fixpoint lookup_td (f : list typedef) (name : text) : option typedef :=
   match f with
@@ -138,10 +139,10 @@ Fixpoint lookup_td (f : list typedef) (name : text) : option typedef :=
 
 (** the loop of findTypedef over the original parents; the typedef found keeps the frames from its
     own parent outwards *)
-Fixpoint search_frames (frames : list (list typedef)) (name : text) : option (typedef * list (list typedef)) :=
+Fixpoint search_frames (frames : list frame) (name : text) : option (typedef * list frame) :=
   match frames with
   | [] => None
-  | f :: tl => match lookup_td f name with
+  | f :: tl => match lookup_td (snd f) name with
                | Some td => Some (td, frames)
                | None => search_frames tl name
                end
@@ -159,6 +160,13 @@ Definition find_module (mods : list modl) (mi : nat) (prefix : text) : option (n
            end
   end.
 
+Definition owner_of (mi : nat) (frames : list frame) : option (list text) :=
+  match frames with
+  | f :: _ => fst f
+  | [] => if Nat.eqb mi 0 then Some [] else None      (* module level; the data tree is module 0's *)
+  end.
+
+(** the typedef, the place it was found (where its own type statement is read) *)
 Definition find_typedef (mods : list modl) (p : pos) (qname : text) : option (typedef * pos) :=
   let (prefix, ident) := split_ident qname in
   let (mi, inner) := p in
@@ -189,7 +197,10 @@ Definition find_typedef (mods : list modl) (p : pos) (qname : text) : option (ty
     that name a typedef, outermost (the leaf's own) first, each with the default and units stated by
     the typedef it names; [base] is the statement naming the built-in [fm]; [members] the resolved
     member types of [base] when it is a union. *)
-Definition level := (ty * nat * option text * text)%type.     (* statement, module it is written in, typedef's default, units *)
+(* statement, module it is written in, the named typedef's default and units, and the position in
+   the data tree Find starts from when the typedef's own type is compiled (typedef.Parent() is the
+   data node it is written in) *)
+Definition level := (ty * nat * option text * text * option (list text))%type.
 Inductive rt := RT (levels : list level) (fm : Z) (base : ty) (mi_base : nat) (members : list rt).
 
 Fixpoint seq_outcomes {A} (l : list (outcome A)) : outcome (list A) :=
@@ -213,7 +224,12 @@ Fixpoint resolve (fuel : nat) (mods : list modl) (p : pos) (y : ty) : outcome rt
                | Some (td, p') =>
                    bind (resolve f mods p' (td_type td))
                         (fun r => match r with
-                                  | RT lv fm b mb ms => Ok (RT ((y, fst p, td_default td, td_units td) :: lv) fm b mb ms)
+                                  | RT lv fm b mb ms =>
+                                      let tdself := match owner_of (fst p') (snd p') with
+                                                    | Some o => Some (o ++ [td_name td])
+                                                    | None => None
+                                                    end in
+                                      Ok (RT ((y, fst p, td_default td, td_units td, tdself) :: lv) fm b mb ms)
                                   end)
                end
       end
@@ -271,12 +287,12 @@ Fixpoint walk (tree : list (list text * tnode)) (cur : option (list text)) (segs
       end
   end.
 
-(** [self]: absolute path of the leaf the type belongs to; None inside a typedef (only absolute
-    paths are modelled there) *)
-Definition find_path (tree : list (list text * tnode)) (self : option (list text)) (path : text) : option tnode :=
+(** [self]: absolute path of the leaf (or of the typedef statement, as a child of the data node it
+    is written in) the type belongs to; None when that place is not in the data tree *)
+Definition find_path (tree : list (list text * tnode)) (abs_ok : bool) (self : option (list text)) (path : text) : option tnode :=
   let dest :=
     match path with
-    | c :: tl => if Byte.eqb c slash then walk tree (Some []) (split_slash [] tl)
+    | c :: tl => if Byte.eqb c slash then (if abs_ok then walk tree (Some []) (split_slash [] tl) else None)
                  else match self with
                       | Some s => walk tree (Some s) (split_slash [] path)
                       | None => None
@@ -304,7 +320,7 @@ Fixpoint base_format (fuel : nat) (mods : list modl) (p : pos) (ident : text) : 
 
 Definition chain_fuel (mods : list modl) (p : pos) : nat :=
   S (S (fold_right (fun m n => (List.length (md_typedefs m) + n)%nat) O mods
-        + fold_right (fun f n => (List.length f + n)%nat) O (snd p))).
+        + fold_right (fun f n => (List.length (snd f) + n)%nat) O (snd p))).
 
 (** ** Identities.  compiler.identity appends every identity to the [derived] list of each of its
     bases; Type.Base() holds the identities named by the base statements. *)
@@ -416,18 +432,24 @@ Definition mixin (base derived : ty) : ty :=
 (** ** The part of compileType after the format is known.  [self]/[is_list]: the leaf (or None/false
     for a typedef) the statement is compiled for; union members are already compiled (a member that
     was copied from a typedef takes the early return, which only sets the list flag). *)
-Definition ctx := (option (list text) * bool)%type.
-Definition typedef_ctx : ctx := (None, false).
+Definition ctx := (option (list text) * bool * bool)%type.    (* Find's start, leaf-list, compiled for a leaf (not a typedef) *)
+Definition ctx_self (c : ctx) := fst (fst c).
+Definition ctx_list (c : ctx) := snd (fst c).
 
 Definition add_list (is_list : bool) (y : ty) : ty :=
   if is_list then set_format y (fmt_list (t_format y)) else y.
 
 Definition post (E : env) (mi : nat) (c : ctx) (y : ty) : outcome ty :=
-  let (self, is_list) := c in
+  let self := ctx_self c in
+  let is_list := ctx_list c in
+  let is_leaf := snd c in
   (* leafref: path required, resolved from the leaf; delegate = the target's type *)
   bind (if fmt_single (t_format y) =? FmtLeafRef then
           if is_nil (t_path y) then Err 2
-          else match find_path (e_tree E) self (t_path y) with
+          else match find_path (e_tree E) (is_leaf || Nat.eqb mi 0)
+                                 (* an absolute path starts at RootModule: for a typedef the module
+                                    it is written in; the data tree is module 0's *)
+                                 self (t_path y) with
                | None => Err 3
                | Some TCont => Panic                       (* resolvedMeta.(HasType) *)
                | Some (TLeaf tl tp y0) =>
@@ -463,14 +485,21 @@ Fixpoint compile_levels (E : env) (levels : list level) (fm : Z) (base : ty) (mi
          (c : ctx) : outcome ty :=
   match levels with
   | [] => post E mib c (set_members (set_format base fm) ms)
-  | (y, mi, _, _) :: tl =>
-      bind (compile_levels E tl fm base mib ms typedef_ctx) (fun b => post E mi c (mixin b y))
+  | (y, mi, _, _, tdself) :: tl =>
+      bind (compile_levels E tl fm base mib ms (tdself, false, false)) (fun b => post E mi c (mixin b y))
+  end.
+
+(** the context the built-in statement (and so its union members) is compiled in *)
+Fixpoint base_ctx (levels : list level) (c : ctx) : ctx :=
+  match levels with
+  | [] => c
+  | (_, _, _, _, tdself) :: tl => base_ctx tl (tdself, false, false)
   end.
 
 Fixpoint compile_rt (E : env) (r : rt) (c : ctx) : outcome ty :=
   match r with
   | RT levels fm base mib members =>
-      let cm := match levels with [] => c | _ => typedef_ctx end in
+      let cm := base_ctx levels c in
       bind ((fix go (l : list rt) : outcome (list ty) :=
                match l with
                | [] => Ok []
@@ -484,7 +513,7 @@ Fixpoint compile_rt (E : env) (r : rt) (c : ctx) : outcome ty :=
 Fixpoint inherited (levels : list level) : option text * text :=
   match levels with
   | [] => (None, [])
-  | (_, _, d, u) :: tl =>
+  | (_, _, d, u, _) :: tl =>
       let (d', u') := inherited tl in
       ((match d with Some _ => d | None => d' end), (if is_nil u then u' else u))
   end.
@@ -513,7 +542,7 @@ Definition has_negative (l : list valued) : bool :=
 Fixpoint rt_negative (r : rt) : bool :=
   match r with
   | RT levels _ base _ ms =>
-      existsb (fun lv => match lv with (y, _, _, _) => has_negative (t_enums y) || has_negative (t_bits y) end) levels
+      existsb (fun lv => match lv with (y, _, _, _, _) => has_negative (t_enums y) || has_negative (t_bits y) end) levels
       || has_negative (t_enums base) || has_negative (t_bits base)
       || (fix go (l : list rt) : bool := match l with [] => false | m :: tl => rt_negative m || go tl end) ms
   end.
@@ -523,7 +552,7 @@ Definition rt_levels (r : rt) : list level := match r with RT lv _ _ _ _ => lv e
 Definition compile_leaf (fuel : nat) (E : env) (l : leaf) : outcome (ty * inh) :=
   bind (resolve fuel (e_mods E) (lf_pos l) (lf_type l)) (fun r =>
   if rt_negative r then Err 7 else
-  bind (compile_rt E r (Some (lf_self l), lf_list l)) (fun t =>
+  bind (compile_rt E r (Some (lf_self l), lf_list l, true)) (fun t =>
   Ok (t, inherited (rt_levels r)))).
 
 (** ** The copies of a grouping leaf share one Type object.  The first copy compiled runs the whole
